@@ -463,6 +463,10 @@ type version struct {
 	from, until int
 
 	full bool
+
+	// sync is the backend's clock at the response that produced this
+	// version: the place in the backend's change log.
+	sync int64
 }
 
 func (v *version) clone() (c *version) {
@@ -686,6 +690,7 @@ func (st *storage) Profiles(
 	nv := w.cur().clone()
 	nv.apply(resp, isFullForDB)
 	nv.from = w.stamp()
+	nv.sync = b.clock
 	w.pending = nv
 	if full {
 		w.storing = nv
@@ -1069,6 +1074,114 @@ func run(s *kernel.Sim, _, cfg string) {
 		}
 	})
 	s.Run()
+	if s.Failed() != nil || w.lastStored == nil {
+		return
+	}
+
+	// Restart and carry on: the backend changes, a new process starts from
+	// the cache file and synchronises (incrementally, while the cache is
+	// recent).  What it answers afterwards must be the cached data with the
+	// backend's changes since then applied: a restart must not lose its
+	// place in the backend's change log.
+	s.Go("restart", func() {
+		for m := 1 + t.Choose(4, "mutations-before-restart"); m > 0; m-- {
+			w.be.mutate()
+		}
+		time.Sleep(kernel.Pick(t, []time.Duration{time.Second, 30 * time.Second, 5 * time.Minute}, "restart-gap"))
+
+		st2 := &plainStorage{w: w}
+		db2 := w.newDB(cachePath, st2)
+		rerr := db2.Refresh(context.Background())
+		if rerr != nil || st2.resp == nil {
+			s.Failf("C14/restart-sync", "synchronisation after a restart failed", "%v", rerr)
+
+			return
+		}
+		// The reference does not depend on what the restarted database asked
+		// for: everything the backend changed after the cached response.
+		want := w.lastStored.clone()
+		exp := &profiledb.StorageProfilesResponse{}
+		for _, p := range w.be.profs {
+			if st2.full && p.deleted {
+				continue
+			}
+			if st2.full || p.mod > w.lastStored.sync {
+				rec, devs := mkProfile(p, baseTime().Add(time.Duration(p.mod)*time.Millisecond))
+				exp.Profiles = append(exp.Profiles, rec)
+				exp.Devices = append(exp.Devices, devs...)
+			}
+		}
+		want.apply(exp, st2.full)
+		s.Logf("restart: database from the cache synchronises (full=%v, %d profiles)", st2.full, len(st2.resp.Profiles))
+		s.Probe("restarted-and-synchronised")
+		// Twice: the first pass lets stale index entries be cleaned up.
+		for pass := 0; pass < 2; pass++ {
+			for _, k := range w.allKeys() {
+				p, d, lerr := w.doLookup(db2, k)
+				if pass == 0 {
+					continue
+				}
+				wp, wd := want.lookup(k)
+				got, exp := "not-found", "not-found"
+				if lerr == nil {
+					got = fmt.Sprintf("%s/%s", p.ID, d.ID)
+				}
+				if wp != nil {
+					exp = fmt.Sprintf("%s/%s", wp.ID, wd.ID)
+				}
+				if got != exp {
+					s.Failf("C14/restart-sync", "a database restarted from its cache and synchronised does not reflect the backend's latest data",
+						"%s: restarted database says %s, cache plus the backend's changes say %s", k, got, exp)
+
+					return
+				}
+			}
+			time.Sleep(time.Millisecond)
+		}
+	})
+	s.Run()
+}
+
+// plainStorage answers like storage, without faults and without touching the
+// world's version history; it keeps the response it gave.
+type plainStorage struct {
+	w    *world
+	resp *profiledb.StorageProfilesResponse
+	full bool
+}
+
+func (st *plainStorage) CreateAutoDevice(
+	context.Context,
+	*profiledb.StorageCreateAutoDeviceRequest,
+) (*profiledb.StorageCreateAutoDeviceResponse, error) {
+	return nil, errors.New("sim: auto devices not simulated")
+}
+
+func (st *plainStorage) Profiles(
+	_ context.Context,
+	req *profiledb.StorageProfilesRequest,
+) (resp *profiledb.StorageProfilesResponse, err error) {
+	b := st.w.be
+	full := req.SyncTime.IsZero()
+	since := int64(0)
+	if !full {
+		since = int64(req.SyncTime.Sub(baseTime()) / time.Millisecond)
+	}
+	b.clock++
+	resp = &profiledb.StorageProfilesResponse{SyncTime: baseTime().Add(time.Duration(b.clock) * time.Millisecond)}
+	for _, p := range b.profs {
+		if full && p.deleted {
+			continue
+		}
+		if p.mod > since || full {
+			rec, devs := mkProfile(p, baseTime().Add(time.Duration(p.mod)*time.Millisecond))
+			resp.Profiles = append(resp.Profiles, rec)
+			resp.Devices = append(resp.Devices, devs...)
+		}
+	}
+	st.resp, st.full = resp, full
+
+	return resp, nil
 }
 
 func scratchRoot() string {
